@@ -379,7 +379,7 @@ func TestC07(t *testing.T) {
 		}
 	}
 	// always first: the two schedules with delayed Head() calls that defeated the interleaved form before /repo 7d16f07
-	for _, kind := range []string{"range", "answer"} {
+	for _, kind := range []string{"range", "answer", "lock"} {
 		run, ok, err := syncfx.RunStraddle(kind)
 		if err != nil {
 			t.Fatalf("corpus straddle/%s: %v", kind, err)
@@ -389,6 +389,9 @@ func TestC07(t *testing.T) {
 			continue
 		}
 		class := "corpus/straddle_" + kind
+		if kind == "lock" {
+			class = "corpus/append_lock"
+		}
 		term := fmt.Sprintf("Case07 %s %d %s %s %s %s %s", emit.Z(run.Drift), run.Tail, run.Init, run.Chain, emit.List(run.Acts), emit.B(run.Wait), emit.List(run.Probe))
 		w.Add(term, map[string]any{"class": class, "what": run.Note}, class, true)
 		w.Count("class", class)
